@@ -89,6 +89,25 @@ fn hex64(s: &str) -> String {
     format!("nohex:{}", s.replace(' ', "_"))
 }
 
+/// a reader that hands out one byte per `read` call
+struct Drip<'a>(&'a [u8], usize);
+impl<'a> ark_std::io::Read for Drip<'a> {
+    fn read(&mut self, buf: &mut [u8]) -> ark_std::io::Result<usize> {
+        if self.1 >= self.0.len() || buf.is_empty() { return Ok(0); }
+        buf[0] = self.0[self.1];
+        self.1 += 1;
+        Ok(1)
+    }
+}
+
+/// a stream that ends early is a length error, anything else an encoding error
+fn ser_err(e: ark_serialize::SerializationError, len: usize) -> String {
+    match e {
+        ark_serialize::SerializationError::IoError(_) if len < 32 => "err-len".into(),
+        _ => "err-enc".into(),
+    }
+}
+
 fn dec(form: &str, bytes: &[u8]) -> Result<Element, String> {
     fn arr(bytes: &[u8]) -> Result<[u8; 32], String> {
         bytes.try_into().map_err(|_| "err-len".to_string())
@@ -113,17 +132,19 @@ fn dec(form: &str, bytes: &[u8]) -> Result<Element, String> {
         "try_enc_ref" => Element::try_from(&Encoding(arr(bytes)?)).map_err(ee),
         "enc_from_arr" => { let e: Encoding = arr(bytes)?.into(); e.vartime_decompress().map_err(ee) }
         // stream deserialisers read exactly 32 bytes from the front; shorter input is an io error (= length)
-        "deser_elem" => {
-            if bytes.len() < 32 { return Err("err-len".into()); }
-            Element::deserialize_compressed(&bytes[..]).map_err(|_| "err-enc".to_string())
+        // the stream is handed over as it is (a short stream must be an error, never padded), either as one slice or
+        // through a reader that delivers one byte per `read` call
+        "deser_elem" | "deser_elem_drip" => {
+            let r = if form == "deser_elem" { Element::deserialize_compressed(&bytes[..]) } else { Element::deserialize_compressed(Drip(bytes, 0)) };
+            r.map_err(|e| ser_err(e, bytes.len()))
         }
-        "deser_aff" => {
-            if bytes.len() < 32 { return Err("err-len".into()); }
-            Affine::deserialize_compressed(&bytes[..]).map(|a| a.into()).map_err(|_| "err-enc".to_string())
+        "deser_aff" | "deser_aff_drip" => {
+            let r = if form == "deser_aff" { Affine::deserialize_compressed(&bytes[..]) } else { Affine::deserialize_compressed(Drip(bytes, 0)) };
+            r.map(|a| a.into()).map_err(|e| ser_err(e, bytes.len()))
         }
-        "deser_enc" => {
-            if bytes.len() < 32 { return Err("err-len".into()); }
-            let e = Encoding::deserialize_compressed(&bytes[..]).map_err(|_| "err-len".to_string())?;
+        "deser_enc" | "deser_enc_drip" => {
+            let r = if form == "deser_enc" { Encoding::deserialize_compressed(&bytes[..]) } else { Encoding::deserialize_compressed(Drip(bytes, 0)) };
+            let e = r.map_err(|e| ser_err(e, bytes.len()))?;
             e.vartime_decompress().map_err(ee)
         }
         // the other (Compress, Validate) modes of the stream deserialisers: every one of them is a public constructor
